@@ -627,7 +627,59 @@ def check_csrf_protocol(rep: Report) -> None:
             seqs = [u + ''.join(f' [{"" if t else "not "}{g}]' for g, t in gs) for u, gs in ups]
         return out + seqs, obj, new_call
     (a, _oa, _na), (b, hobj, hnew) = hmac_inputs(gen_t), hmac_inputs(chk)
-    if a == b and len(a) >= 4:
+
+    def signed_sequences(fnode: ast.FunctionDef) -> dict | None:
+        """{strict origin flag: set of input sequences of the HMAC} by term evaluation (sa/termeval.py): the
+        HMAC object carries what was fed to it through update(), however the calls are arranged (one call per
+        field, a loop over a list of fields, a helper) - one sequence per evaluated path"""
+        from ..termeval import Hash, TermEval, _freeze
+        try:
+            ev = TermEval({}, hash_ctors=('hmac.new',))
+            paths = [p_ for p_ in ev.run(fnode, {}) if p_.done == 'return']
+        except AnalysisError:
+            return None
+        out: dict = {}
+        for p_ in paths:
+            hs = [v for v in p_.env.values() if isinstance(v, Hash)]
+            if len({id(h) for h in hs}) != 1:
+                continue
+            def role(i: int, x) -> str:
+                t_ = repr(_freeze(x))
+                if i == 0:
+                    return 'secret' if 'SECRET' in t_.upper() else f'key?{t_[:40]}'
+                if i == 1:
+                    return 'cookie key' if ('cookies' in t_ or 'csrf_key' in t_) else f'msg?{t_[:40]}'
+                if i == 2:
+                    return 'digest ' + t_.strip('<>')
+                if 'service' in t_:
+                    return 'service'
+                if 'SALT' in t_.upper():
+                    return 'salt'
+                if 'Origin' in t_ or 'request.url' in t_ or 'netloc' in t_ or 'origin' in t_:
+                    return 'origin'
+                return f'other {t_[:60]}'
+            seq = tuple(role(i, x) for i, x in enumerate(hs[0].inputs))
+            flag = None
+            for nt in p_.notes:
+                if 'STRICT' in nt.upper() and nt.startswith('value+'):
+                    flag = True
+                if 'STRICT' in nt.upper() and nt.startswith('value-'):
+                    flag = False
+            out.setdefault(flag, set()).add(seq)
+        return out or None
+    ga, gb = signed_sequences(gen_t), signed_sequences(chk)
+    if ga and gb and set(ga) == set(gb) and None not in ga:
+        issued_all = set().union(*ga.values())
+        bad_k = [k for k in ga if not ga[k] <= gb[k] or not gb[k] <= issued_all]
+        shown = '; '.join(f'strict origin {k}: ' + ' | '.join(' + '.join(sq) for sq in sorted(ga[k])) for k in sorted(ga))
+        if not bad_k:
+            rep.ok(rid, construct, 'hmac inputs agree', shown)
+            b = b + [' '.join(sq) for sqs in gb.values() for sq in sqs]
+        else:
+            k = bad_k[0]
+            rep.fail(rid, construct, 'hmac inputs agree',
+                     f'with the strict-origin flag {k} a token is issued over {sorted(ga[k])} but verified over {sorted(gb[k])}', chk)
+    elif a == b and len(a) >= 4:
         rep.ok(rid, construct, 'hmac inputs agree', '; '.join(a))
     else:
         rep.fail(rid, construct, 'hmac inputs agree',
